@@ -124,6 +124,9 @@ func c01RunTransports(c *kit.Ctx) {
 		waitUntil(func() bool { return media.Get(path) != nil }, 5*time.Second)
 		pub := &c01tPub{video: map[uint32][]byte{}, audio: map[uint32][]byte{}, nals: map[uint32][]byte{}, rtcp: map[uint32][]byte{}}
 		var ctlTCP, ctlUDP, ctlPublished int64     // control packets received intact on rtsp-tcp / rtsp-udp, and published
+		mcLeave := make(chan struct{})             // closed by the publisher when the companion multicast member shall leave
+		var mcLeft int32                           // set when it has left
+		var mcLeftAt uint32                        // id being published when it had left
 		n := 400 + c.SubRng("c01t", run).Intn(300) // video+audio+filler stay below the 1000-packet backlog limit
 		sentinel := uint32(n + 1)
 		var stop int32
@@ -370,6 +373,31 @@ func c01RunTransports(c *kit.Ctx) {
 						time.Sleep(150 * time.Millisecond) // let the server finish the first member's teardown (not verdict-relevant)
 					}
 				}
+				// A companion member of the SAME generation: it joins before the judged member and leaves in the middle of
+				// the publication (mcLeave is closed by the publisher). The judged member must go on receiving.
+				if comp, err := kit.DialRTSP(srv.Addr); err == nil {
+					ok := true
+					for _, st := range [][2]string{{"DESCRIBE", base}, {"SETUP", base + "/streamid=0"}, {"PLAY", base}} {
+						h := map[string]string{}
+						if st[0] == "SETUP" {
+							h["Transport"] = "RTP/AVP;multicast"
+						}
+						if resp, err := comp.Do(st[0], st[1], h, ""); err != nil || resp.Code != 200 {
+							ok = false
+							break
+						}
+					}
+					if ok {
+						go func() {
+							<-mcLeave
+							comp.Do("TEARDOWN", base, nil, "")
+							comp.Close()
+							atomic.StoreInt32(&mcLeft, 1)
+						}()
+					} else {
+						comp.Close()
+					}
+				}
 				cl, err := kit.DialRTSP(srv.Addr)
 				if err != nil {
 					r.fail("dial")
@@ -536,6 +564,14 @@ func c01RunTransports(c *kit.Ctx) {
 			if pubc.WriteFrame(0, pk.Data) != nil {
 				break
 			}
+			if i == n/2 {
+				close(mcLeave)
+				waitUntil(func() bool { return atomic.LoadInt32(&mcLeft) != 0 }, 900*time.Millisecond)
+				if atomic.LoadInt32(&mcLeft) != 0 {
+					time.Sleep(100 * time.Millisecond) // the server handles the teardown
+					mcLeftAt = id
+				}
+			}
 			if i%10 == 5 { // a sender report on the video control channel
 				rp := c01RTCP(id)
 				pub.mu.Lock()
@@ -643,6 +679,16 @@ func c01RunTransports(c *kit.Ctx) {
 			c.Count("transport_packets_"+r.name, int64(len(r.ids)))
 			if len(r.ids) > 0 {
 				c.Note("first_last_"+r.name, fmt.Sprintf("%d..%d holes=%d sentinel=%d", r.ids[0], last, holes, sentinel))
+			}
+			if r.name == "multicast" && mcLeftAt != 0 && len(r.ids) > 0 {
+				// the other member of the group left while id mcLeftAt was being published: the judged member must have
+				// received packets well after that point (every other transport did)
+				if last < mcLeftAt+50 {
+					detail["companion_left_at_id"], detail["last_id_received"] = mcLeftAt, last
+					c.Violation("C01:transport:multicast-member-cut-off-when-another-member-left", detail)
+					continue
+				}
+				c.Count("multicast_member_kept_receiving_after_companion_left", 1)
 			}
 			if !r.reliable && len(r.ids) == 0 {
 				// datagram transports may lose packets, but a member that attached successfully and is given nothing at
